@@ -4,8 +4,8 @@
    real C++ on every check (see prop.py). *)
 From Coq Require Import ZArith List Bool Permutation.
 From MomoCommon Require Import GenPrelude.
-From C08 Require Gen_GrowCapacity Gen_ArrayBucket Gen_ArrayBucket_cnt Gen_ArrayBucket_s Gen_HashMultiMap Gen_VersionCheck Gen_VersionCheck_a Gen_WrapEq Gen_WrapErase Gen_AB_ops Gen_AB_copy.
-From C08 Require Import GenWrapPrims ArrayBucketModel GenRefine GenSkeleton GenWrapRefine MultiMapModel WrapperModel VersionModel Examples.
+From C08 Require Gen_GrowCapacity Gen_ArrayBucket Gen_ArrayBucket_cnt Gen_ArrayBucket_s Gen_HashMultiMap Gen_VersionCheck Gen_VersionCheck_a Gen_WrapEq Gen_WrapErase Gen_AB_ops Gen_AB_copy Gen_PairIterator.
+From C08 Require Import GenWrapPrims ArrayBucketModel GenRefine GenSkeleton GenIterator GenWrapRefine MultiMapModel WrapperModel VersionModel Examples.
 Import ListNotations.
 Local Open Scope Z_scope.
 
@@ -570,10 +570,10 @@ Theorem C08_gen_add_back_skeleton :
   match r with
   | RNull | RFast _ =>
       add_back M r = match gen_add M r with
-                     | Ok (_, st', _) => if st' =? 0 then RHeap (M * 2) (rcount r + 1) else RFast st'
+                     | Ok (_, st', _, cap', cnt') => if st' =? 0 then RHeap cap' cnt' else RFast st'
                      | _ => RStuck
                      end
-  | RHeap _ _ => gen_add M r = Ok (tt, -1, -1)
+  | RHeap _ _ => gen_add M r = Ok (tt, -1, -1, 0, 0)
   | RStuck => True
   end.
 Proof. exact add_back_via_generated. Qed.
@@ -634,3 +634,17 @@ Theorem C08_key_version_guards_keys :
   forall (M : Z) (m : mm) (o : op), kver_changes M m o = false -> keys (fst (step1 M m o)) = keys (fst m).
 Proof. exact key_version_guards_keys. Qed.
 Print Assumptions C08_key_version_guards_keys.
+
+(* ------------------------------------------------------------------ grow round 6: generated pvMove; heap capacity in the AddBackCrt skeleton *)
+(* the REAL HashMultiMapIterator::pvMove (regenerated; key iterator = number of remaining keys, ++ decrements, value iterator =
+   key_begin + index): on every suffix e :: r of every key list it computes exactly the hand model's pv_move -- stay when the
+   value iterator is not at the key's end, else skip the keys without values, else the end iterator (null value iterator) *)
+Theorem C08_gen_pv_move_refines :
+  forall (es : list entry) (W : Z) (pre : list entry) (e : entry) (r : list entry) (vi fuel : nat),
+  es = pre ++ e :: r -> (vi <= length (evals e))%nat -> (length es < fuel)%nat ->
+  let it' := pv_move (e :: r, vi) in
+  gen_pv_move es W fuel (Z.of_nat (length (e :: r))) (k_begin W (Z.of_nat (length (e :: r))) + Z.of_nat vi) =
+  Ok (tt, Z.of_nat (length (fst it')),
+      match fst it' with [] => 0 | _ => k_begin W (Z.of_nat (length (fst it'))) + Z.of_nat (snd it') end).
+Proof. exact gen_pv_move_refines. Qed.
+Print Assumptions C08_gen_pv_move_refines.
